@@ -1384,7 +1384,7 @@ def run_daemon(desc):
             if d.proc is not None and d.proc.poll() is not None:
                 res.violation('C14/daemon:process-exits', f'the daemon exited (rc {d.proc.poll()}) while answering the command stream: {str(e)[:200]}', dict(wit, log=d.tail(2500), script=script[-3000:]), 'daemon')
             else:
-                res.inconclusive.append('daemon: ' + str(e)[:300])
+                daemon.skipped(res, str(e))
             continue
         finally:
             try:
